@@ -211,6 +211,17 @@ class ilu_solve< backend::builtin<value_type, col_type, ptr_type> > {
 #endif
         }
 
+        // Size of the team executing the current parallel region. It may be
+        // smaller than num_threads() (e.g. when called from a parallel region
+        // of the caller, where nested regions are serialized).
+        static int team_size() {
+#ifdef _OPENMP
+            return omp_get_num_threads();
+#else
+            return 1;
+#endif
+        }
+
         // copies of the input matrices for the fallback (serial)
         // implementation:
         std::shared_ptr<matrix>          L;
@@ -322,8 +333,8 @@ class ilu_solve< backend::builtin<value_type, col_type, ptr_type> > {
                 std::vector<ptrdiff_t> thread_cols(nthreads, 0);
 
 #pragma omp parallel
+                for(int tid = thread_id(); tid < nthreads; tid += team_size())
                 {
-                    int tid = thread_id();
                     tasks[tid].reserve(nlev);
 
                     for(ptrdiff_t lev = 0; lev < nlev; ++lev) {
@@ -352,9 +363,8 @@ class ilu_solve< backend::builtin<value_type, col_type, ptr_type> > {
                 if (!lower) D.resize(nthreads);
 
 #pragma omp parallel
+                for(int tid = thread_id(); tid < nthreads; tid += team_size())
                 {
-                    int tid = thread_id();
-
                     col[tid].reserve(thread_cols[tid]);
                     val[tid].reserve(thread_cols[tid]);
                     ord[tid].reserve(thread_rows[tid]);
@@ -391,22 +401,28 @@ class ilu_solve< backend::builtin<value_type, col_type, ptr_type> > {
             void solve(Vector &x) const {
 #pragma omp parallel
                 {
-                    int tid = thread_id();
+                    // every entry of tasks holds one task per level
+                    const size_t nlev = tasks[0].size();
 
-                    for(const task &t : tasks[tid]) {
-                        for(ptrdiff_t r = t.beg; r < t.end; ++r) {
-                            ptrdiff_t i   = ord[tid][r];
-                            ptrdiff_t beg = ptr[tid][r];
-                            ptrdiff_t end = ptr[tid][r+1];
+                    for(size_t lev = 0; lev < nlev; ++lev) {
+                        // the team may be smaller than nthreads
+                        for(int tid = thread_id(); tid < nthreads; tid += team_size()) {
+                            const task &t = tasks[tid][lev];
 
-                            rhs_type X = math::zero<rhs_type>();
-                            for(ptrdiff_t j = beg; j < end; ++j)
-                                X += val[tid][j] * x[col[tid][j]];
+                            for(ptrdiff_t r = t.beg; r < t.end; ++r) {
+                                ptrdiff_t i   = ord[tid][r];
+                                ptrdiff_t beg = ptr[tid][r];
+                                ptrdiff_t end = ptr[tid][r+1];
 
-                            if (lower)
-                                x[i] -= X;
-                            else
-                                x[i] = D[tid][r] * (x[i] - X);
+                                rhs_type X = math::zero<rhs_type>();
+                                for(ptrdiff_t j = beg; j < end; ++j)
+                                    X += val[tid][j] * x[col[tid][j]];
+
+                                if (lower)
+                                    x[i] -= X;
+                                else
+                                    x[i] = D[tid][r] * (x[i] - X);
+                            }
                         }
 
                         // each task corresponds to a level, so we need
